@@ -103,7 +103,14 @@ def filter_scope_rule(ctx, program, rid):
 
         pol = FlowPolicy(program, may_raise_all=False, cancel=False, inline=inl,
                          summaries={"self.aeval": aeval, "self.has_expression": lambda i, n, a, k, c, o: [(c, Const(True))]})
-        heap = {"expr.local_sym_table": DictV([(Const("print"), Sym(("fn", "print")))]), "expr.ast": ObjV("tree", "Expression"), "self._ast_expression": ObjV("expr", "AstEval")}
+        heap = {"expr.local_sym_table": DictV([]), "expr.ast": ObjV("tree", "Expression"), "self._ast_expression": ObjV("expr", "AstEval")}
+        # the evaluator's own functions are installed the way Function.install_ast_funcs does it
+        o0 = run_flow(program, "eval.py::AstEval.set_local_sym_table", FlowPolicy(program, may_raise_all=False, cancel=False),
+                      args={"self": ObjV("expr", "AstEval"), "sym_table": DictV([(Const("print"), Sym(("fn", "print")))])}, heap=heap)
+        r0 = [c for k, c, d in exits(o0) if k == "return"]
+        if len(r0) != 1:
+            raise AnalysisError("AstEval.set_local_sym_table: not a single normal exit")
+        heap = dict(r0[0].heap)
         if "ExpressionDecorator" in uid:
             # class-level defaults (constants) are the instance's initial attribute values
             for st in program.cls("decorators/base.py::ExpressionDecorator").body:
